@@ -119,7 +119,7 @@ func (v *View) GetDomain(typ common.BLSDomainType, epoch common.Epoch) (common.B
 	return v.W.DomainAt(typ, epoch), nil
 }
 func (v *View) IsBadBlock(root common.Root) bool { return v.Bad[root] }
-func (v *View) Chain() beacon.Chain            { return (*chainView)(v) }
+func (v *View) Chain() beacon.Chain              { return (*chainView)(v) }
 func (v *View) HeadInfo(ctx context.Context) (beacon.ChainEntry, *common.EpochsContext, common.BeaconState, error) {
 	if v.HeadFail || v.HeadNode == nil {
 		return nil, nil, nil, errors.New("scripted: no head")
@@ -138,12 +138,16 @@ func (v *View) seen(m Mark) bool {
 }
 func (v *View) mark(m Mark) { v.Marks = append(v.Marks, m) }
 
-func (v *View) SeenExit(i common.ValidatorIndex) bool { return v.seen(Mark{Kind: "exit", A: uint64(i)}) }
-func (v *View) MarkExit(i common.ValidatorIndex)      { v.mark(Mark{Kind: "exit", A: uint64(i)}) }
+func (v *View) SeenExit(i common.ValidatorIndex) bool {
+	return v.seen(Mark{Kind: "exit", A: uint64(i)})
+}
+func (v *View) MarkExit(i common.ValidatorIndex) { v.mark(Mark{Kind: "exit", A: uint64(i)}) }
 func (v *View) SeenProposerSlashing(i common.ValidatorIndex) bool {
 	return v.seen(Mark{Kind: "propsl", A: uint64(i)})
 }
-func (v *View) MarkProposerSlashing(i common.ValidatorIndex) { v.mark(Mark{Kind: "propsl", A: uint64(i)}) }
+func (v *View) MarkProposerSlashing(i common.ValidatorIndex) {
+	v.mark(Mark{Kind: "propsl", A: uint64(i)})
+}
 func (v *View) slashingSeenIndex(i common.ValidatorIndex) bool {
 	for _, x := range v.Seen {
 		if x.Kind == "attsl" {
@@ -220,8 +224,8 @@ func (v *View) entry(n *Node, slot common.Slot) *Entry {
 	return &Entry{v: v, node: n, slot: slot, st: st, epc: epc}
 }
 
-func (e *Entry) Step() common.Step                 { return common.AsStep(e.slot, e.slot == e.node.Slot) }
-func (e *Entry) BlockRoot() (common.Root, error)   { return e.node.Root, nil }
+func (e *Entry) Step() common.Step               { return common.AsStep(e.slot, e.slot == e.node.Slot) }
+func (e *Entry) BlockRoot() (common.Root, error) { return e.node.Root, nil }
 func (e *Entry) ParentRoot() (common.Root, error) {
 	if e.node.Parent == nil {
 		return common.Root{}, nil
@@ -254,7 +258,9 @@ func (c *chainView) known(root common.Root) *Node {
 	return c.W.Nodes[root]
 }
 
-func (c *chainView) ByStateRoot(root common.Root) (beacon.ChainEntry, bool) { panic("unused: ByStateRoot") }
+func (c *chainView) ByStateRoot(root common.Root) (beacon.ChainEntry, bool) {
+	panic("unused: ByStateRoot")
+}
 func (c *chainView) ByBlock(root common.Root) (beacon.ChainEntry, bool) {
 	n := c.known(root)
 	if n == nil {
@@ -292,12 +298,14 @@ func (c *chainView) InSubtree(anchor common.Root, root common.Root) (unknown boo
 	}
 	return false, IsAncestor(a, r)
 }
-func (c *chainView) ByCanonStep(step common.Step) (beacon.ChainEntry, bool) { panic("unused: ByCanonStep") }
-func (c *chainView) Iter() (beacon.ChainIter, error)                        { panic("unused: Iter") }
-func (c *chainView) JustifiedCheckpoint() common.Checkpoint                 { return c.Fin }
-func (c *chainView) FinalizedCheckpoint() common.Checkpoint                 { return c.Fin }
-func (c *chainView) Justified() (beacon.ChainEntry, error)                  { panic("unused: Justified") }
-func (c *chainView) Finalized() (beacon.ChainEntry, error)                  { panic("unused: Finalized") }
+func (c *chainView) ByCanonStep(step common.Step) (beacon.ChainEntry, bool) {
+	panic("unused: ByCanonStep")
+}
+func (c *chainView) Iter() (beacon.ChainIter, error)        { panic("unused: Iter") }
+func (c *chainView) JustifiedCheckpoint() common.Checkpoint { return c.Fin }
+func (c *chainView) FinalizedCheckpoint() common.Checkpoint { return c.Fin }
+func (c *chainView) Justified() (beacon.ChainEntry, error)  { panic("unused: Justified") }
+func (c *chainView) Finalized() (beacon.ChainEntry, error)  { panic("unused: Finalized") }
 func (c *chainView) Head() (beacon.ChainEntry, error) {
 	if c.HeadFail || c.HeadNode == nil {
 		return nil, errors.New("scripted: no head")
